@@ -29,7 +29,7 @@ let ev_s = function
       Some (Printf.sprintf "p%s>%d%s%s" (us u) (int_of_nat tgt) (match k with KIntr -> "i" | KNormal -> "n")
               (match oid with None -> "-" | Some i -> string_of_int (int_of_nat i)))
   | EvPostRet u -> Some ("r" ^ us u)
-  | EvRun (u, t) -> Some (Printf.sprintf "R%s@%d" (us u) (int_of_nat t))
+  | EvRun (u, t, _) -> Some (Printf.sprintf "R%s@%d" (us u) (int_of_nat t))
   | EvRet u -> Some ("E" ^ us u)
   | EvCwBegin (t, i) -> Some (Printf.sprintf "b%di%d" (int_of_nat t) (int_of_nat i))
   | EvCwRet (t, i, _) -> Some (Printf.sprintf "e%di%d" (int_of_nat t) (int_of_nat i))
@@ -79,7 +79,7 @@ let () = each_line (fun line ->
           | Some l, Some c' ->
               let nlog = List.length c'.log - List.length !c.log in
               let evs = List.filter_map ev_s (List.rev (take nlog c'.log)) in
-              Buffer.add_string b (Printf.sprintf " %d:%s:%s:%s" ti (label_s l) (words c') (bits (fun th -> th.intr) c'));
+              Buffer.add_string b (Printf.sprintf " %d:%s:%s:%s" ti (label_s l) (words c') (String.concat "" (List.map (fun b -> if b.intr then "1" else "0") c'.boxes)));
               if evs <> [] then Buffer.add_string b (":" ^ String.concat "+" evs);
               c := c'
           | _ -> Buffer.add_string b (Printf.sprintf " %d:-" ti)
@@ -87,8 +87,8 @@ let () = each_line (fun line ->
       let c = !c in
       Buffer.add_string b (Printf.sprintf " | F %s C %d Q %s H %s W %s"
         (bits (fun th -> th.todo = []) c) (if c.crashed then 1 else 0)
-        (String.concat "," (List.map (fun th -> Printf.sprintf "%d.%d" (List.length th.qn) (List.length th.qi)) c.threads))
-        (String.concat "," (List.map (fun th -> (if th.hasn then "1" else "0") ^ (if th.hasi then "1" else "0")) c.threads))
+        (String.concat "," (List.map (fun b -> Printf.sprintf "%d.%d" (List.length b.qn) (List.length b.qi)) c.boxes))
+        (String.concat "," (List.map (fun b -> (if b.hasn then "1" else "0") ^ (if b.hasi then "1" else "0")) c.boxes))
         (words c));
       Buffer.contents b
   | _ -> "BADCASE")
